@@ -50,6 +50,8 @@ type Cfg struct {
 	Sticky   int     `json:"sticky,omitempty"`
 	TickProb float64 `json:"tick_prob,omitempty"`
 	SchedSeed int64  `json:"sched_seed,omitempty"`
+	RealFS    string `json:"real_fs,omitempty"` // REAL mode (C10 race clause): mem | os | osmmap
+	MmapInit  int64  `json:"mmap_init,omitempty"` // initial mapping size of fs.OSMMap in the scratch build (0 = shipped 1 GiB)
 }
 
 // Fault describes the injected fault(s) of a replay.
